@@ -249,6 +249,10 @@ func (f *MemFile) ReadAt(b []byte, off int64) (n int, err error) {
 		return 0, fs.ErrInvalid
 	}
 
+	if off < 0 {
+		return 0, &fs.PathError{Op: "readat", Path: f.name, Err: avfs.ErrNegativeOffset}
+	}
+
 	f.mu.RLock()
 	defer f.mu.RUnlock()
 
@@ -268,10 +272,6 @@ func (f *MemFile) ReadAt(b []byte, off int64) (n int, err error) {
 		}
 
 		return 0, &fs.PathError{Op: op, Path: f.name, Err: err}
-	}
-
-	if off < 0 {
-		return 0, &fs.PathError{Op: "readat", Path: f.name, Err: avfs.ErrNegativeOffset}
 	}
 
 	if f.openMode&avfs.OpenRead == 0 {
@@ -582,12 +582,12 @@ func (f *MemFile) Truncate(size int64) error {
 		return fs.ErrInvalid
 	}
 
-	if size < 0 {
-		return &fs.PathError{Op: op, Path: f.name, Err: f.vfs.err.InvalidArgument}
-	}
-
 	if f.nd == nil {
 		return &fs.PathError{Op: op, Path: f.name, Err: fs.ErrClosed}
+	}
+
+	if size < 0 {
+		return &fs.PathError{Op: op, Path: f.name, Err: f.vfs.err.InvalidArgument}
 	}
 
 	nd, ok := f.nd.(*fileNode)
